@@ -1,4 +1,4 @@
-//@@ unit props=C01,C07,C14,C16,C20,C06
+//@@ unit props=C01,C07,C14,C16,C17,C20,C06
 // Unit ctors: the constructors of the xlsx / xls / ods readers, the prologue reader of an xlsx sheet part, and the thin accessors of the
 // eager readers that no other unit has under contract.
 //
@@ -21,6 +21,10 @@
 //   src/xls.rs, src/ods.rs    Reader::{metadata, vba_project, worksheet_formula, worksheets}   C16 metadata() is the stored metadata; C14 the stored formula
 //                                                            range of EXACTLY the named sheet; C07 unknown name => WorksheetNotFound, reads are pure (`*final(self) ==
 //                                                            *old(self)`), worksheets() = one entry (name, stored range) per stored sheet.
+//   src/xls.rs                Xls::{worksheet_merge_cells, worksheet_merge_cells_at}   C17 the stored merged regions of EXACTLY the named sheet (None for an
+//                                                            unknown name: C07); `_at(n)` is sheet n OF THE WORKBOOK (`metadata().sheets[n]`, BoundSheet order), NOT
+//                                                            the n-th key of the name-ordered map; None beyond the list.  (`&self`: nothing can change.)  The Xlsx
+//                                                            twins are under contract in unit xlsxparts; Ods / Xlsb have no such accessor.
 // TRUSTED (all marked below): A-io (Read / Seek ghost model, text of unit cfb), A-xml (quick-xml ghost model, text of unit xlsxxml), A-zip
 // (ZipArchive / ZipFile opaque), A-std (Cow deref, to_string, to_owned, to_vec, String-keyed BTreeMap lookup, derives Default / Clone expansions,
 // `?` = From::from), byte-literal contents (axiom_bytelits, exec const MIMETYPE), and the CALLEE CONTRACTS: every part reader is a stand-in
@@ -28,7 +32,8 @@
 // named at its declaration (cfb, vbaproj, xlswb, xlsxxml, xlsxparts, xlsxwb, ods, odsxml); the clause text is copied where this unit uses it
 // (`xlsx_pw_rel`, `xls_wb_rel`, `ods_pw_rel`, `has_directory`, `get_dimension`).
 // Declared rewrites (logged): `map_err(Variant)` eta-expanded; byte-string literal patterns -> binding + guard / verified helper
-// `verif_attr_value_if_key` (Verus crashes on them); the `for a in e.attributes()` loop containing `continue 'xml` desugared (R6); `mutparams`.
+// `verif_attr_value_if_key` (Verus crashes on them); the `for a in e.attributes()` loop containing `continue 'xml` desugared (R6); `mutparams`;
+// optional (`replace?`, absent from the real text): `<iterator>.nth(n)` -> trusted helper verif_iter_nth (Verus cannot call provided trait methods).
 // R-mono (rule of units apiglue / lazyrange) for `worksheets()` of Xls / Ods.  Manual copy: `const MIMETYPE` (elided lifetime written out).
 // Not reached: `Xlsx::worksheets` (closure capturing `&mut self`: rejected by Verus), `pictures` (feature gated).
 // Finding (fixed, findings/ctors.json): the eager VBA read of Xls::new_with_options returned its error before FILEPASS was looked at.
